@@ -64,6 +64,8 @@ def run(ctx):
         stores.append((pipe.single(gen.noreturn_prog(rng)), "a.s", "noreturn"))
     for _ in range(15 * k):
         stores.append((gen.stopping_tree(rng)[0], "a.s", "stoptree"))
+    for _ in range(6 * k):           # 2^n paths through a chain of diamonds: the searches behind the lints must stay polynomial
+        stores.append((pipe.single(gen.diamond_chain(rng)), "a.s", "diamonds"))
     edge = ["." * 300000, "\n" * 20000, "'" * 5000, "\"" * 5000, "#" * 100000, "a" * 200000, "0x" + "f" * 100000, "-" * 100000,
             "li t0, " + "9" * 5000 + "\n", ("x: " * 3000) + "\n", ".word " + "1 " * 20000 + "\n", "(" * 50000, ".macro\n" * 2000,
             "li t0, 0x7fffffff\naddi t0, t0, 1\nslli t1, t0, 32\nli t2, -0x80000000\nli t3, -1\ndiv t4, t2, t3\nrem t5, t2, t3\n",
